@@ -202,12 +202,16 @@ func (s *c02Setup) moves(g *dsGlobal) (free *dsEv, devs []dsEv) {
 	// default 2/3: the adversaries answer the node's own vote of the current round, one adversary at a time.
 	//   echo:         every adversary repeats the node's prevote and precommit (the node commits in round 0)
 	//   nilprecommit: prevotes are echoed (the node locks), every adversary precommits nil (the node walks the rounds locked)
+	//   oddsilent:    like nilprecommit, but in odd rounds nobody prevotes (their prevotes can arrive later, as a stale polka)
 	//   split:        prevotes: first adversary echoes, second votes nil, third stays silent (no polka, prevote-wait timeout);
 	//                 precommits: nil from everybody (the node walks the rounds unlocked)
 	for _, t := range []tmproto.SignedMsgType{tmproto.PrevoteType, tmproto.PrecommitType} {
 		own := sum.ownPrevote[rd]
 		if t == tmproto.PrecommitType {
 			own = sum.ownPrecom[rd]
+			if s.c.Strategy == "oddsilent" && rd%2 == 1 && own == "" && sum.ownPrevote[rd] != "" {
+				own = "nil" // adversaries precommit nil without waiting for the node's precommit
+			}
 		}
 		if own == "" || rd > s.c.MaxRound {
 			continue
@@ -224,6 +228,10 @@ func (s *c02Setup) moves(g *dsGlobal) (free *dsEv, devs []dsEv) {
 					val = "nil"
 				case s.c.Strategy == "split" && t == tmproto.PrevoteType && k == 2:
 					val = "" // silent
+				case s.c.Strategy == "oddsilent" && t == tmproto.PrecommitType:
+					val = "nil"
+				case s.c.Strategy == "oddsilent" && t == tmproto.PrevoteType && rd%2 == 1:
+					val = "" // nobody prevotes in odd rounds; the nil precommits carry the node to the next round
 				}
 				if val != "" {
 					if id, ok := s.voteMsg(a, rd, t, val); ok {
@@ -450,9 +458,19 @@ func TestVerifC02(t *testing.T) {
 	var cfgs []c02Config
 	for pos := 0; pos <= 3; pos++ {
 		cfgs = append(cfgs, c02Config{NodePos: pos, Strategy: "echo", MaxRound: 2, MaxDev: dev, Eager: true})
-		if pos <= 1 || vr.Thorough() {
-			cfgs = append(cfgs, c02Config{NodePos: pos, Strategy: "nilprecommit", MaxRound: 3, MaxDev: dev, Eager: true})
+		if vr.Thorough() {
+			for _, st := range []string{"nilprecommit", "split", "oddsilent"} {
+				cfgs = append(cfgs, c02Config{NodePos: pos, Strategy: st, MaxRound: 3, MaxDev: dev, Eager: true})
+			}
+			continue
+		}
+		// quick: the round-walking adversaries at a lower deviation bound (they already are several deviations away from "echo")
+		cfgs = append(cfgs, c02Config{NodePos: pos, Strategy: "oddsilent", MaxRound: 3, MaxDev: dev - 1, Eager: true})
+		if pos == 0 {
 			cfgs = append(cfgs, c02Config{NodePos: pos, Strategy: "split", MaxRound: 3, MaxDev: dev, Eager: true})
+		}
+		if pos <= 1 {
+			cfgs = append(cfgs, c02Config{NodePos: pos, Strategy: "nilprecommit", MaxRound: 3, MaxDev: dev - 1, Eager: true})
 		}
 	}
 	if vr.Thorough() {
